@@ -71,6 +71,8 @@ box_int = ufn('box_int', I, U)
 unbox_int = ufn('unbox_int', U, I)
 box_str = ufn('box_str', S, U)
 unbox_str = ufn('unbox_str', U, S)
+kindof = ufn('kindof', U, I)    # 1 set-like, 2 dict, 3 list/tuple object, 0 anything else
+KIND_CODE = {'set': 1, 'dict': 2, 'list': 3, 'vtuple': 3}
 lt_u = ufn('py_lt', U, U, B)   # a total order on comparable values (sorted / QN.__lt__)
 
 
@@ -305,10 +307,10 @@ def exc_isa(cls, parent):
 
 # ------------------------------------------------------------------ heap
 
-CONTAINER_COMPS = ('mem', 'dom', 'val', 'len', 'item')
+CONTAINER_COMPS = ('mem', 'dom', 'val', 'len', 'item', 'lmem')
 _COMP_SIG = {
     'mem': (U, U, B), 'dom': (U, U, B), 'val': (U, U, U), 'len': (U, I),
-    'item': (U, I, U), 'alloc': (U, B), 'card': (U, I),
+    'item': (U, I, U), 'alloc': (U, B), 'card': (U, I), 'lmem': (U, U, B),
 }
 
 
@@ -374,6 +376,9 @@ class Heap(object):
   def alloc(self, o):
     return self.get('alloc')(o)
 
+  def lmem(self, l, e):
+    return self.get('lmem')(l, e)
+
 
 def upd2(old, a0, fn_new):
   """Pointwise update of a binary heap component at first argument a0."""
@@ -382,3 +387,88 @@ def upd2(old, a0, fn_new):
 
 def upd1(old, a0, new_val):
   return lambda s: z3.If(s == a0, new_val, old(s))
+
+
+# ------------------------------------------------------------------ quantifiers with explicit triggers
+
+def _candidate_patterns(consts, body, limit=6):
+  """Smallest uninterpreted applications that mention every bound constant (single patterns)."""
+  ids = {c.get_id() for c in consts}
+  need = len(ids)
+  found = []
+  seen = set()
+
+  def walk(e):
+    """returns set of bound ids occurring in e"""
+    k = e.get_id()
+    if z3.is_quantifier(e):
+      return set()      # do not look inside nested binders
+    occ = set()
+    if z3.is_const(e) and k in ids:
+      return {k}
+    kids_full = False
+    for ch in e.children():
+      o = walk(ch)
+      occ |= o
+      if len(o) == need and not (z3.is_const(ch) and ch.get_id() in ids):
+        kids_full = True
+    if len(occ) == need and not kids_full and z3.is_app(e) and e.decl().kind() == z3.Z3_OP_UNINTERPRETED \
+        and e.num_args() > 0 and k not in seen:
+      seen.add(k)
+      found.append(e)
+    return occ
+  walk(body)
+  return found[:limit]
+
+
+def _pure_uninterp(e, ids):
+  """e is built only from uninterpreted applications, bound constants and free constants."""
+  if z3.is_quantifier(e):
+    return False
+  if z3.is_const(e):
+    return e.decl().kind() == z3.Z3_OP_UNINTERPRETED
+  if not z3.is_app(e) or e.decl().kind() != z3.Z3_OP_UNINTERPRETED:
+    return False
+  return all(_pure_uninterp(c, ids) for c in e.children())
+
+
+def _mentions(e, ids):
+  if z3.is_const(e):
+    return e.get_id() in ids
+  if z3.is_quantifier(e):
+    return False
+  return any(_mentions(c, ids) for c in e.children())
+
+
+def goal_exists_with_triggers(q):
+  """Re-create a (single-variable-block) existential of a goal with every pure uninterpreted atom of
+  its body that mentions all bound variables as an alternative trigger."""
+  n = q.num_vars()
+  consts = [z3.Const(fresh_name('ex_' + q.var_name(i)), q.var_sort(i)) for i in range(n)]
+  body = z3.substitute_vars(q.body(), *reversed(consts))
+  ids = {c.get_id() for c in consts}
+  pats, seen = [], set()
+
+  def walk(e):
+    if z3.is_quantifier(e):
+      return
+    if z3.is_app(e) and e.decl().kind() == z3.Z3_OP_UNINTERPRETED and e.num_args() > 0 \
+        and _pure_uninterp(e, ids) and all(_mentions(e, {i}) for i in ids):
+      if e.get_id() not in seen:
+        seen.add(e.get_id())
+        pats.append(e)
+      return
+    for c in e.children():
+      walk(c)
+  walk(body)
+  if not pats:
+    return q
+  return z3.Exists(consts, body, patterns=pats[:8])
+
+
+def ForAllT(consts, body):
+  return z3.ForAll(consts, body)
+
+
+def ExistsT(consts, body):
+  return z3.Exists(consts, body)
